@@ -84,7 +84,14 @@ def netlists(draw, **kw):
     raw_w = draw(st.integers(0, (1 << 62)))
     rev = draw(st.sampled_from(list(range(32))))      # bit 0: gate nodes created in reverse order, bit 1: fork chains created downstream first, bit 2: state elements created last one first, bit 3: interface read before the ports get their final order, bit 4: bench-style output ports sit at the end of their fork chain
     port_perm = draw(st.integers(0, 1 << 30))
-    return make_netlist(npi, style, raw_g, raw_st, raw_po, raw_w, rev, port_perm, cfg)
+    nl = make_netlist(npi, style, raw_g, raw_st, raw_po, raw_w, rev, port_perm, cfg)
+    # floating nets: an unconnected operand pin may instead hang on a fork that nothing drives (what the Verilog reader builds for a wire
+    # without driver) - it reads 0 all the same. Only pins below the gate's arity, so that the primitive stays the same.
+    if cfg.get('floating', True):
+        flt = draw(st.sampled_from([0, 0, 0, 1, 2]))
+        if flt:
+            nl['flt'] = flt         # 1: a fork of its own per pin, 2: one undriven fork shared by all such pins
+    return nl
 
 
 def make_netlist(npi, style, raw_g, raw_st, raw_po, raw_w, rev, port_perm, cfg):
